@@ -45,6 +45,7 @@ def check(ctx):
     ctx.run(r15_8, g)
     ctx.run(r15_9, g)
     ctx.run(r15_10, g)
+    ctx.run(r15_11, g)
     ctx.not_decided += [
         "that all_components / find_component partition the nodes into the true connected components",
         "that biccs returns exactly the biconnected components and articulation points (algorithmic exactness; only the edge-stack discipline is decided)",
@@ -729,3 +730,47 @@ def r15_10(ctx, g):
             else:
                 raise AnalysisError("R15.10", f.where(marks[0]), "cannot find where a discovered node is pushed to the work stack")
     ctx.require_count("R15.10", n, 1, f.where(), "discovery step of biccs (visited.add + discovery number)")
+
+
+
+def r15_11(ctx, g):
+    """biccs, the root of the search: it is an articulation point exactly when the search tree has more than one child at
+    the root.  The children are counted where a child of the root is finished (the branch that also closes that child's
+    component), once per child, starting from zero; the root is added under `count > 1`."""
+    from .. import ordtab as _ot
+
+    repo = ctx.repo
+    f = _nf(repo, repo.func("gaftools.gfa", "GFA.biccs", "R15.11"))
+    adds = [st for st in walk_stmts(f.node.body) if isinstance(st, ast.If) and any(isinstance(x, ast.Expr) and isinstance(x.value, ast.Call) and isinstance(x.value.func, ast.Attribute) and x.value.func.attr == "add" for x in st.body) and isinstance(st.test, ast.Compare) and any(isinstance(n_, ast.Name) for n_ in ast.walk(st.test)) and not any(isinstance(n_, ast.Subscript) for n_ in ast.walk(st.test))]
+    cand = None
+    for st in adds:
+        names = [n_.id for n_ in ast.walk(st.test) if isinstance(n_, ast.Name)]
+        for nm in names:
+            incs = [x for x in walk_stmts(f.node.body) if isinstance(x, ast.AugAssign) and norm(x.target) == nm]
+            inits = [x for x in walk_stmts(f.node.body) if isinstance(x, ast.Assign) and norm(x.targets[0]) == nm]
+            if inits:
+                cand = (st, nm, incs, inits)
+    if cand is None:
+        raise AnalysisError("R15.11", f.where(), "cannot find the test that makes the root of the search an articulation point")
+    st, nm, incs, inits = cand
+    bad = None
+    for k in (0, 1, 2, 3):
+        try:
+            v = _ot.Evaluator({"c": k}, lambda e_: "c" if norm(e_) == nm else None, 1).truth(st.test)
+        except _ot.Unsupported as ex:
+            raise AnalysisError("R15.11", f.where(st), f"root test outside the fragment: {ex}")
+        if v != (k > 1):
+            bad = k
+    ctx.check(bad is None, "R15.11", f.where(st), "the root of the search is an articulation point exactly when it has more than one child in the search tree", key_of(f, f"root-test:{norm(st.test)}"), **({"witness_children": bad} if bad is not None else {}))
+    ok_init = all(const_value(x.value, "?") == 0 for x in inits)
+    ok_inc = len(incs) == 1 and isinstance(incs[0].op, ast.Add) and const_value(incs[0].value, "?") == 1
+    where_ok = False
+    if incs:
+        # the increment sits in the branch that closes a component of a child of the root (it truncates the edge stack)
+        for n_ in ast.walk(f.node):
+            for fld in ("body", "orelse"):
+                lst = getattr(n_, fld, None)
+                if isinstance(lst, list) and any(x is incs[0] for x in lst):
+                    nested = {d.name: d for d in ast.walk(f.node) if isinstance(d, ast.FunctionDef) and d is not f.node}
+                    where_ok = any(isinstance(x, ast.Delete) for x in lst) or any(isinstance(c_, ast.Call) and isinstance(c_.func, ast.Name) and c_.func.id in nested and any(isinstance(y, ast.Delete) for y in ast.walk(nested[c_.func.id])) for x in lst for c_ in ast.walk(x))
+    ctx.check(ok_init and ok_inc and where_ok, "R15.11", f.where(incs[0]) if incs else f.where(st), "the children of the root are counted from zero, by one, where a child of the root is finished and its component is closed", key_of(f, f"root-children:{ok_init}:{ok_inc}:{where_ok}:{len(incs)}"))
